@@ -95,6 +95,7 @@ type Ctx struct {
 	viaStack  []string
 	clk0      *Term
 	curFrame  *frame
+	knownTrue map[*Term]bool // facts fixed by the current case of a `cases` split
 	feasChecks int
 	inlineList  []string
 	inlineDepth int
